@@ -20,7 +20,7 @@
 #define MAXW 3
 #define MAXO 4
 #define MAXS 4
-enum { T_EVENTUAL, T_FUTURE, T_COND };
+enum { T_EVENTUAL, T_FUTURE, T_COND, T_CONDSIG, T_MUTEX };
 enum { SETTER_PRIMARY, SETTER_EXT };
 
 typedef struct {
@@ -49,6 +49,14 @@ static const cfg_t cfgs[] = {
       T_COND, 2, SETTER_PRIMARY,
       { { 0, 1, -1 }, { 0, 2, -1 } },
       { { 0, 3 }, { 1, 3 }, { 2, 2 }, { -1, 0 } } },
+    { "cond/signal: W0,W1 wait C0; signal C0 x2; W0 waits C1, W1 waits C2; signal C1; "
+      "signal C2", 1, T_CONDSIG, 2, SETTER_PRIMARY,
+      { { 0, 1, -1 }, { 0, 2, -1 } },
+      { { 0, 3 }, { 1, 3 }, { 2, 2 }, { -1, 0 } } },
+    { "mutex: W0,W1,W2 lock M0 (held by the primary); unlock M0; W1 locks M1, W0,W2 "
+      "lock M2; unlock M1; unlock M2", 1, T_MUTEX, 3, SETTER_PRIMARY,
+      { { 0, 2, -1 }, { 0, 1, -1 }, { 0, 2, -1 } },
+      { { 0, 7 }, { 1, 7 }, { 2, 5 }, { -1, 0 } } },
     { "eventual: W0,W1 wait O0; X sets O0 (no gating afterwards); W0 waits O1, W1 "
       "waits O2; X sets O2, O1", 0, T_EVENTUAL, 2, SETTER_EXT,
       { { 0, 1, -1 }, { 0, 2, -1 } },
@@ -109,8 +117,9 @@ static void up_push(ABT_pool pool, ABT_unit unit, ABT_pool_context ctx)
 static ABT_eventual EVo[MAXO];
 static ABT_future FUo[MAXO];
 static ABT_cond CVo[MAXO];
-static ABT_mutex MX;
+static ABT_mutex MX, MXo[MAXO];
 static int pred[MAXO];    /* cond predicate, under MX */
+static int inside[MAXO];  /* holders of MXo[k] */
 static int issued[MAXO];  /* hooked: the set of Ok has been issued */
 static int value[MAXO];
 static ABT_thread W[MAXW];
@@ -135,6 +144,17 @@ static void do_wait(int w, int k)
         abtmc_check(is == 1, "early_return",
                     "waiter %d returned from ABT_future_wait(O%d) but O%d was "
                     "never set", w, k, k);
+    } else if (C->type == T_MUTEX) {
+        OK(ABT_mutex_lock(MXo[k]));
+        int is = abtmc_load(&issued[k]);
+        abtmc_check(is == 1, "early_return",
+                    "waiter %d acquired M%d although its holder never unlocked it", w,
+                    k);
+        inside[k]++;
+        abtmc_check(inside[k] == 1, "two_holders", "%d holders of M%d", inside[k], k);
+        abtmc_progress();
+        inside[k]--;
+        OK(ABT_mutex_unlock(MXo[k]));
     } else {
         OK(ABT_mutex_lock(MX));
         while (!pred[k]) {
@@ -156,10 +176,20 @@ static void do_set(int k)
         OK(ABT_eventual_set(EVo[k], &value[k], sizeof(int)));
     } else if (C->type == T_FUTURE) {
         OK(ABT_future_set(FUo[k], &value[k]));
+    } else if (C->type == T_MUTEX) {
+        OK(ABT_mutex_unlock(MXo[k]));
     } else {
         OK(ABT_mutex_lock(MX));
         pred[k] = 1;
-        OK(ABT_cond_broadcast(CVo[k]));
+        if (C->type == T_CONDSIG) {
+            /* one signal per waiter that will ever wait on C_k */
+            for (int w = 0; w < C->nw; w++)
+                for (int i = 0; i < MAXS && C->wscript[w][i] >= 0; i++)
+                    if (C->wscript[w][i] == k)
+                        OK(ABT_cond_signal(CVo[k]));
+        } else {
+            OK(ABT_cond_broadcast(CVo[k]));
+        }
         OK(ABT_mutex_unlock(MX));
     }
 }
@@ -223,6 +253,9 @@ static void scenario(int cfg)
         OK(ABT_eventual_create(sizeof(int), &EVo[k]));
         OK(ABT_future_create(1, NULL, &FUo[k]));
         OK(ABT_cond_create(&CVo[k]));
+        OK(ABT_mutex_create(&MXo[k]));
+        if (C->type == T_MUTEX)
+            OK(ABT_mutex_lock(MXo[k])); /* held by the primary = the setter */
     }
     OK(ABT_xstream_create(s1, &es1));
 
@@ -259,6 +292,9 @@ static void scenario(int cfg)
         OK(ABT_eventual_free(&EVo[k]));
         OK(ABT_future_free(&FUo[k]));
         OK(ABT_cond_free(&CVo[k]));
+        if (C->type == T_MUTEX && !abtmc_load(&issued[k]))
+            OK(ABT_mutex_unlock(MXo[k])); /* never used in this script */
+        OK(ABT_mutex_free(&MXo[k]));
     }
     OK(ABT_mutex_free(&MX));
     h_finalize();
